@@ -35,7 +35,7 @@ const GEN: &[&str] = &["0", "1", "65535"];
 const PLEN: &[&str] = &["17", "0", "1", "15", "16", "32", "33"];
 const SPELL: &[&str] = &["literal", "hex"];
 const SFILTER: &[&str] = &["no-filter", "flate"];
-const XREF: &[&str] = &["table", "xref-stream+objstm"];
+const XREF: &[&str] = &["table", "xref-stream+objstm", "xref-stream+objstm-holding-the-catalog"];
 
 fn user_pw(i: usize, utf8: bool) -> Vec<u8> {
     match i {
@@ -140,8 +140,12 @@ fn build_with(ch: &mut Chooser, sweep: Option<(usize, usize)>) -> Built {
     let crypt = |n: u64, g: u16, d: &[u8]| sec.encrypt(n, g, d);
     fb.crypt = Some(&crypt);
     fb.no_crypt = vec![9];
-    fb.add(1, 0, &Val::dict(vec![("Type", Val::name("Catalog")), ("Pages", Val::r(2)), ("Metadata", Val::r(8))]));
-    fb.add(2, 0, &Val::dict(vec![("Type", Val::name("Pages")), ("Kids", Val::Array(vec![])), ("Count", Val::Int(0))]));
+    let catalog = Val::dict(vec![("Type", Val::name("Catalog")), ("Pages", Val::r(2)), ("Metadata", Val::r(8))]);
+    let pages = Val::dict(vec![("Type", Val::name("Pages")), ("Kids", Val::Array(vec![])), ("Count", Val::Int(0))]);
+    if xref != 2 {
+        fb.add(1, 0, &catalog);
+        fb.add(2, 0, &pages);
+    }
     // the string object: hand-spelled so that the hex form is exercised
     let ct = sec.encrypt(nr, gen, &plain);
     let mut body = b"<< /S ".to_vec();
@@ -184,9 +188,14 @@ fn build_with(ch: &mut Chooser, sweep: Option<(usize, usize)>) -> Built {
         fb.add(8, 0, &Val::stream(vec![("Type", Val::name("Metadata")), ("Subtype", Val::name("XML"))], meta_plain.clone()));
     }
     let mut compressed_string_obj = None;
-    if xref == 1 {
+    if xref >= 1 {
         // strings inside object streams are not encrypted individually; the stream as a whole is
-        fb.add_objstm(12, &[(13, Val::dict(vec![("CS", Val::Str(plain.clone()))]))], &ObjStmOpts::default());
+        let mut members = vec![(13, Val::dict(vec![("CS", Val::Str(plain.clone()))]))];
+        if xref == 2 {
+            members.push((1, catalog.clone()));
+            members.push((2, pages.clone()));
+        }
+        fb.add_objstm(12, &members, &ObjStmOpts::default());
         compressed_string_obj = Some(13);
     }
     if place == 0 {
@@ -194,7 +203,7 @@ fn build_with(ch: &mut Chooser, sweep: Option<(usize, usize)>) -> Built {
     }
     let encv = if place == 0 { Val::r(9) } else { sec.dict() };
     let extra = [("Root", Val::r(1)), ("Encrypt", encv), ("ID", Val::Array(vec![Val::Str(id0.clone()), Val::Str(id0.clone())]))];
-    if xref == 1 {
+    if xref >= 1 {
         fb.finish_stream(&extra, &XrefStreamOpts::new(14));
     } else {
         fb.finish_table(&extra, Split::Runs);
